@@ -147,6 +147,7 @@ macro_rules! cmp {
             (A::TimestampTz(a), A::TimestampTz(b)) => binary_op(a.as_ref(), b.as_ref(), |a, b| a $op b),
             (A::Interval(a), A::Interval(b)) => binary_op(a.as_ref(), b.as_ref(), |a, b| a $op b),
             (A::Blob(a), A::Blob(b)) => binary_op(a.as_ref(), b.as_ref(), |a, b| a $op b),
+            (A::Vector(a), A::Vector(b)) => binary_op(a.as_ref(), b.as_ref(), |a, b| a $op b),
 
             // the untyped NULL (`a = NULL`): unknown
             (A::Null(a), _) | (_, A::Null(a)) => (0..a.len()).map(|_| None::<bool>).collect(),
